@@ -184,7 +184,7 @@ struct ResourceLayout : Family {
 				bool null = false;
 				uint64_t weirdLen = 0;
 				o = callLib(plan, [&] {
-					s = rm->GetResourceStream(q, arch);
+					s = (arch && (oi & 1)) ? rm->GetResourceStream(q) : rm->GetResourceStream(q, arch); // default argument = archives allowed
 					if (!s) { null = true; return; }
 					uint64_t len = s->Length();
 					if (len > (1u << 20)) { weirdLen = len; return; }
@@ -227,7 +227,7 @@ struct ResourceLayout : Family {
 				bool arch = op.u("arch", 1) != 0;
 				std::vector<std::string> got;
 				std::string ext = unquoteToken(op.get("ext", ".txt")), pat = op.get("pat", "a");
-				o = callLib(plan, [&] { got = v == "type" ? rm->GetAllFilenamesOfType(ext, arch) : rm->GetAllFilenames(pat, arch); }, &what);
+				o = callLib(plan, [&] { if (arch && (oi & 1)) got = v == "type" ? rm->GetAllFilenamesOfType(ext) : rm->GetAllFilenames(pat); else got = v == "type" ? rm->GetAllFilenamesOfType(ext, arch) : rm->GetAllFilenames(pat, arch); }, &what);
 				std::string desc = v == "type" ? "GetAllFilenamesOfType('" + ext + "')" : "GetAllFilenames('" + pat + "')";
 				const char* cl = v == "type" ? "C17.listing-type" : "C17.listing-pattern";
 				if (o != OkOut) ctx.fail(cl, desc + " failed: " + what);
